@@ -1,0 +1,137 @@
+//go:build verif
+
+package consensus
+
+// Add-only verification hooks for /verif properties C01/C02 (consensus
+// agreement, no equivocation).  Nothing here changes behaviour of existing
+// code; with the build tag off the file is not compiled.
+
+import (
+	"github.com/icon-project/goloop/module"
+)
+
+// VerifCSState is a snapshot of the consensus state machine.
+type VerifCSState struct {
+	Height         int64
+	Round          int32
+	Step           int
+	LockedRound    int32
+	LockedPSID     []byte // nil if not locked
+	LockedHasBlock bool
+	CurPSID        []byte // nil if currentBlockParts is zero
+	CurComplete    bool
+	CurHasBlock    bool
+	CurValidated   bool
+	POLRound       int32
+	CommitRound    int32
+	PendingRequest bool // cancelBlockRequest != nil
+	TimerArmed     bool
+	Started        bool
+	NValidators    int
+}
+
+func verifCS(c module.Consensus) *consensus {
+	cs, ok := c.(*consensus)
+	if !ok {
+		panic("verif: not a *consensus")
+	}
+	return cs
+}
+
+func verifPSIDBytes(id *PartSetID) []byte {
+	if id == nil {
+		return nil
+	}
+	bs := make([]byte, 0, len(id.Hash)+2)
+	bs = append(bs, id.Hash...)
+	return bs
+}
+
+// VerifState returns the snapshot under the consensus mutex.
+func VerifState(c module.Consensus) VerifCSState {
+	cs := verifCS(c)
+	cs.mutex.Lock()
+	defer cs.mutex.Unlock()
+	st := VerifCSState{
+		Height:         cs.height,
+		Round:          cs.round,
+		Step:           int(cs.step),
+		LockedRound:    cs.lockedRound,
+		LockedPSID:     verifPSIDBytes(cs.lockedBlockParts.ID()),
+		LockedHasBlock: cs.lockedBlockParts.HasBlockData(),
+		CurPSID:        verifPSIDBytes(cs.currentBlockParts.ID()),
+		CurComplete:    cs.currentBlockParts.IsComplete(),
+		CurHasBlock:    cs.currentBlockParts.HasBlockData(),
+		CurValidated:   cs.currentBlockParts.HasValidatedBlock(),
+		POLRound:       cs.proposalPOLRound,
+		CommitRound:    cs.commitRound,
+		PendingRequest: cs.cancelBlockRequest != nil,
+		TimerArmed:     cs.timer != nil,
+		Started:        cs.started,
+	}
+	if cs.validators != nil {
+		st.NValidators = cs.validators.Len()
+	}
+	return st
+}
+
+// VerifStopTimer stops the pending step timer (if any) without clearing it,
+// so that the harness decides when (and whether) a timeout fires.
+func VerifStopTimer(c module.Consensus) {
+	cs := verifCS(c)
+	cs.mutex.Lock()
+	defer cs.mutex.Unlock()
+	if cs.timer != nil {
+		cs.timer.Stop()
+	}
+}
+
+// VerifFireTimeout runs the body of the timer callback that the code arms in
+// the given step (enterPropose / enterPrevoteWait / enterPrecommitWait /
+// enterNewRound / enterNewHeight), if the state machine is in that step, the
+// engine is started and a timer is armed.  It returns whether it fired.
+func VerifFireTimeout(c module.Consensus, st int) bool {
+	cs := verifCS(c)
+	cs.mutex.Lock()
+	defer cs.mutex.Unlock()
+	if !cs.started || cs.step != step(st) || cs.timer == nil {
+		return false
+	}
+	switch cs.step {
+	case stepPropose:
+		cs.enterPrevote()
+	case stepPrevoteWait:
+		cs.enterPrecommit()
+	case stepPrecommitWait:
+		cs.enterNewRound()
+	case stepNewRound:
+		cs.enterPropose()
+	case stepNewHeight:
+		cs.processPrefetchItems()
+		if cs.step <= stepTransactionWait {
+			cs.enterTransactionWait()
+		}
+	default:
+		return false
+	}
+	return true
+}
+
+// VerifUnmarshalMessage decodes a consensus wire message (sub-protocol, body).
+func VerifUnmarshalMessage(sp uint16, bs []byte) (interface{}, error) {
+	return UnmarshalMessage(sp, bs)
+}
+
+// VerifVoteInfo extracts the fields of a vote message the harness needs.
+func VerifVoteInfo(m *VoteMessage) (signer module.Address, h int64, r int32, t VoteType, blockID []byte, psid []byte) {
+	var ps []byte
+	if m.BlockPartSetIDAndNTSVoteCount != nil {
+		ps = verifPSIDBytes(m.BlockPartSetIDAndNTSVoteCount.ID())
+	}
+	return m.address(), m.Height, m.Round, m.Type, m.BlockID, ps
+}
+
+// VerifProposalInfo extracts the fields of a proposal message.
+func VerifProposalInfo(m *ProposalMessage) (signer module.Address, h int64, r int32, polRound int32, psid []byte) {
+	return m.address(), m.Height, m.Round, m.POLRound, verifPSIDBytes(m.BlockPartSetID)
+}
